@@ -99,7 +99,7 @@ fn rule_c14(ctx: &Ctx, out: &mut Vec<Violation>) {
             if !matches!(d.via, Via::Push { .. }) {
                 continue;
             }
-            for &b in list.iter().skip(i + 1) {
+            for &b in list.iter().skip(i + 1).take(crate::oracle::PAIR_WINDOW) {
                 let d2 = &m.deliveries[b];
                 // the later delivery's earliest hand-out, as a sequence number when known
                 let from = if d2.lo_seq > 0 { d2.lo_seq } else { first_seq_at_or_after(m, d2.lo_t) };
@@ -168,7 +168,9 @@ fn rule_c14(ctx: &Ctx, out: &mut Vec<Violation>) {
 }
 
 fn first_seq_at_or_after(m: &Model, t: u64) -> u64 {
-    m.events.iter().find(|e| e.t_us >= t).map(|e| e.seq).unwrap_or(u64::MAX)
+    // events are in time order: binary search
+    let i = m.events.partition_point(|e| e.t_us < t);
+    m.events.get(i).map(|e| e.seq).unwrap_or(u64::MAX)
 }
 
 // =================================================================================================
